@@ -125,10 +125,10 @@ pub fn field_%s() {
     return {
         "harnesses": hs,
         "groups": {"main": {"features": ["c09"], "timeout_s": 1800, "unwindset": [["try_from_fn_erased", 392]]},
-                   "msm": {"features": ["c09"], "timeout_s": 3000},
-                   "big": {"features": ["c09"], "timeout_s": 3000, "unwindset": [["try_from_fn_erased", 392]]},
+                   "msm": {"features": ["c09"], "est_gb": 6, "timeout_s": 3000},
+                   "big": {"features": ["c09"], "est_gb": 10, "timeout_s": 3000, "unwindset": [["try_from_fn_erased", 392]]},
                    "field": {"features": ["c09"], "timeout_s": 900},
-                   "frame": {"features": ["c09"], "timeout_s": 2400, "unwindset": [["try_from_fn_erased", 392]], "kani_args": stub}},
+                   "frame": {"features": ["c09"], "est_gb": 7, "timeout_s": 2400, "unwindset": [["try_from_fn_erased", 392]], "kani_args": stub}},
         "level": "model_checking",
         "functions": ["rtcm_rs::MessageBuilder::{new,build_message}", "msgNNNN::encode for all %d types" % len(T.messages), "df::dfs::*::encode", "Assembler::put", "bit_value::*::sign_fix_rev"],
         "bounds": {"values": "integers over their whole Rust type, floats over every bit pattern, optionals present/absent",
